@@ -4,96 +4,9 @@
 // SFINAE (is_ce), so one rejected input costs one "nc" (not-constant) event instead of the build.  The libm column
 // is computed at run time on the same input.  GENERATED ONCE by hand-run script; edit the lists below together.
 #pragma once
-#include <array>
-#include <utility>
+#include "float_ct_inputs.hpp"
 
 namespace {
-
-template <class T>
-constexpr auto ct_inputs()
-{
-    struct R {
-        std::array<T, 512> v {};
-        std::size_t n = 0;
-        constexpr void add(T x) { v[n++] = x; }
-    } r;
-    if constexpr (std::is_same_v<T, float>) {
-        float const base[] = {0.0f, 1.0f, 0.5f, 0.75f, 0.25f, 1.5f, 2.0f, 2.5f, 3.0f, 3.5f, 5.0f, 7.0f, 10.0f, 100.5f, 0.001f,
-                              3.14159274f, 1.57079637f, 0.785398185f, 6.28318548f, 2.71828175f, 8388607.5f, 8388608.0f,
-                              8388609.0f, 16777216.0f, 16777215.0f, 4194304.5f, 2147483648.0f, 2147483520.0f, 4294967296.0f,
-                              9223372036854775808.0f, 9223371487098961920.0f, 18446744073709551616.0f, 1e10f, 1e20f, 1e30f,
-                              1e-10f, 1e-20f, 1e-30f, 88.0f, 89.0f, 1000.0f, 1e5f};
-        for (float b : base) {
-            r.add(b);
-            r.add(-b);
-        }
-        std::uint32_t const pats[] = {0x00000001u, 0x00000002u, 0x007FFFFFu, 0x00400000u, 0x00800000u, 0x00800001u, 0x00FFFFFFu,
-                                      0x3F7FFFFFu, 0x3F800001u, 0x3EFFFFFFu, 0x3F000001u, 0x7F7FFFFFu, 0x7F7FFFFEu, 0x7F800000u,
-                                      0x7FC00000u, 0x4B000001u, 0x4AFFFFFFu, 0x3FC00001u, 0x3FBFFFFFu, 0x40200001u, 0x401FFFFFu};
-        for (std::uint32_t p : pats) {
-            r.add(std::bit_cast<float>(p));
-            r.add(std::bit_cast<float>(p | 0x80000000u));
-        }
-        for (int e = 127 - 12; e <= 127 + 12; ++e) {
-            for (std::uint32_t s = 0; s < 2; ++s) {
-                std::uint32_t const ms[] = {0u, 0x400000u + 12345u, 0x7FFFFFu / 3u};
-                for (std::uint32_t m : ms) { r.add(std::bit_cast<float>((s << 31) | ((std::uint32_t)e << 23) | m)); }
-            }
-        }
-        for (int k = -6; k <= 6; ++k) { r.add((float)k + 0.5f); }
-    } else {
-        double const base[] = {0.0, 1.0, 0.5, 0.75, 0.25, 1.5, 2.0, 2.5, 3.0, 3.5, 5.0, 7.0, 10.0, 100.5, 0.001, 3.141592653589793,
-                               1.5707963267948966, 0.7853981633974483, 6.283185307179586, 2.718281828459045, 8388607.5,
-                               16777216.0, 4503599627370495.5, 4503599627370496.0, 4503599627370497.0, 9007199254740992.0,
-                               9007199254740991.0, 2251799813685248.5, 2147483647.5, 2147483648.5, 9223372036854775808.0,
-                               9223372036854774784.0, 18446744073709551616.0, 1e10, 1e20, 1e30, 1e100, 1e300, 1e-10, 1e-30,
-                               1e-100, 1e-300, 709.0, 710.0, 0.1, 0.3, 1000.0, 1e5};
-        for (double b : base) {
-            r.add(b);
-            r.add(-b);
-        }
-        std::uint64_t const pats[] = {1ull, 2ull, 0x000FFFFFFFFFFFFFull, 0x0008000000000000ull, 0x0010000000000000ull,
-                                      0x0010000000000001ull, 0x3FEFFFFFFFFFFFFFull, 0x3FF0000000000001ull, 0x3FDFFFFFFFFFFFFFull,
-                                      0x3FE0000000000001ull, 0x7FEFFFFFFFFFFFFFull, 0x7FEFFFFFFFFFFFFEull, 0x7FF0000000000000ull,
-                                      0x7FF8000000000000ull, 0x3FF8000000000001ull, 0x3FF7FFFFFFFFFFFFull, 0x4004000000000001ull,
-                                      0x4003FFFFFFFFFFFFull};
-        for (std::uint64_t p : pats) {
-            r.add(std::bit_cast<double>(p));
-            r.add(std::bit_cast<double>(p | 0x8000000000000000ull));
-        }
-        for (int e = 1023 - 12; e <= 1023 + 12; ++e) {
-            for (std::uint64_t s = 0; s < 2; ++s) {
-                std::uint64_t const ms[] = {0ull, 0x8000000000000ull + 123456789ull, 0xFFFFFFFFFFFFFull / 3ull};
-                for (std::uint64_t m : ms) { r.add(std::bit_cast<double>((s << 63) | ((std::uint64_t)e << 52) | m)); }
-            }
-        }
-        for (int k = -6; k <= 6; ++k) { r.add((double)k + 0.5); }
-    }
-    return r;
-}
-template <class T>
-inline constexpr auto ct_in = ct_inputs<T>();
-
-// pair grid of the binary functions
-template <class T>
-constexpr auto ct_grid()
-{
-    using L = std::numeric_limits<T>;
-    struct R {
-        std::array<T, 64> v {};
-        std::size_t n = 0;
-        constexpr void add(T x) { v[n++] = x; }
-    } r;
-    T const pos[] = {(T)0, L::denorm_min(), L::min(), (T)0.5, (T)1, (T)1.5, (T)2.5, (T)3, (T)100.5,
-                     std::is_same_v<T, float> ? (T)8388607.5 : (T)4503599627370495.5, L::max(), L::infinity(), L::quiet_NaN()};
-    for (T p : pos) {
-        r.add(p);
-        r.add(-p);
-    }
-    return r;
-}
-template <class T>
-inline constexpr auto ct_gr = ct_grid<T>();
 
 template <class K, int = (K {}(), 0)>
 constexpr bool is_ce(int)
